@@ -14,6 +14,63 @@ Theorem C18_lookup_correct :
 Proof. intros slot_of ops H. exact (run_lookup_correct slot_of ops init (inv_init slot_of) H). Qed.
 Print Assumptions C18_lookup_correct.
 
+(* The same for overlapping lookups: in any such history every answer carrying a slot that a
+   group of overlapping lookups (with block events and cleaning runs in between) gives for root r
+   carries the chain's slot of r -- whatever the other goroutines' fetches did. *)
+Theorem C18_overlapping_lookups_correct :
+  forall (slot_of : root -> slot) (ops : list op),
+    Forall (op_consistent slot_of) ops ->
+    forall k evs ans i r sl,
+      nth_error ops k = Some (Par evs) ->
+      nth_error (snd (run init ops)) k = Some (OMany ans) ->
+      In (i, r, Some sl) ans ->
+      sl = slot_of r.
+Proof. intros slot_of ops H. exact (run_par_correct slot_of ops init (inv_init slot_of) H). Qed.
+Print Assumptions C18_overlapping_lookups_correct.
+
+(* The cache agrees with the chain in every reachable state: block events, lookups, cleaning runs,
+   head events and groups of overlapping lookups all preserve it. *)
+Theorem C18_cache_agrees_with_chain :
+  forall (slot_of : root -> slot) (ops : list op),
+    Forall (op_consistent slot_of) ops ->
+    forall r sl, get (fst (run init ops)) r = Some sl -> sl = slot_of r.
+Proof. intros slot_of ops H. exact (proj2 (run_inv slot_of ops init (inv_init slot_of) H)). Qed.
+Print Assumptions C18_cache_agrees_with_chain.
+
+(* A head event (whatever block the node answers for it, or none) leaves the root -> slot map alone. *)
+Theorem C18_head_event_keeps_cache :
+  forall s r sl blk, step s (Head r sl blk) = (s, ONone).
+Proof. reflexivity. Qed.
+Print Assumptions C18_head_event_keeps_cache.
+
+(* Inside a group: the fetch of a goroutine that missed fails => that goroutine gets an error and
+   nothing is stored; and no error answer arises in any other way (in particular a goroutine is
+   never given an answer because ANOTHER goroutine's fetch failed or succeeded). *)
+Theorem C18_overlapping_failed_fetch_is_error :
+  forall s pend i r, memb N.eqb i pend = true ->
+    pstep s pend (PEnd i r None) = (s, remove_id i pend, Some (i, r, None)).
+Proof. exact pstep_failed_fetch. Qed.
+Print Assumptions C18_overlapping_failed_fetch_is_error.
+
+Theorem C18_overlapping_error_only_on_failed_fetch :
+  forall s pend e i r,
+    snd (pstep s pend e) = Some (i, r, None) <-> (e = PEnd i r None /\ memb N.eqb i pend = true).
+Proof. exact pstep_err_iff. Qed.
+Print Assumptions C18_overlapping_error_only_on_failed_fetch.
+
+(* A lone lookup is the group of its two micro-events: the sequential theorems are the special case. *)
+Theorem C18_lone_lookup_is_a_group :
+  forall s r f,
+    par_run s [] [PBegin 0 r; PEnd 0 r f] =
+      (fst (step s (Lookup r f)),
+       match snd (step s (Lookup r f)) with
+       | OSlot sl => [(0, r, Some sl)]
+       | OErr => [(0, r, None)]
+       | _ => []
+       end).
+Proof. exact par_sequential. Qed.
+Print Assumptions C18_lone_lookup_is_a_group.
+
 (* A miss whose fetch fails is an error, never a slot, and changes nothing; and an error is
    reported only in that situation. *)
 Theorem C18_failed_fetch_is_error :
@@ -53,6 +110,22 @@ Theorem C18_refines_map :
   forall s r sl r', get (fst (step s (Event r sl))) r' = if r =? r' then Some sl else get s r'.
 Proof. intros; cbn [step fst]; apply get_set. Qed.
 Print Assumptions C18_refines_map.
+
+(* Non-vacuity of the group theorems: two goroutines miss on the same root, the first one's fetch
+   fails, the second one's succeeds or fails: error for the first, its own outcome for the second. *)
+Example C18_shared_failure_example :
+  forall s r f2, get s r = None ->
+    snd (par_run s [] [PBegin 1 r; PBegin 2 r; PEnd 1 r None; PEnd 2 r f2]) = [(1, r, None); (2, r, f2)].
+Proof. exact par_shared_failure. Qed.
+
+Example C18_group_history_example :
+  let slot_of := fun r => r * 10 in
+  let ops := [Event 1 10; Head 3 30 (Some (1, 30)); Lookup 3 None;
+              Par [PBegin 1 2; PBegin 2 2; PBegin 3 1; PEnd 1 2 None; PEvent 3 30; PEnd 2 2 (Some 20); PBegin 4 2; PEnd 3 1 None];
+              Lookup 3 None] in
+  Forall (op_consistent slot_of) ops /\
+  snd (run init ops) = [ONone; ONone; OErr; OMany [(3, 1, Some 10); (1, 2, None); (2, 2, Some 20); (4, 2, Some 20)]; OSlot 30].
+Proof. cbn. split; [repeat constructor | reflexivity]. Qed.
 
 (* Non-vacuity: a concrete consistent history with a miss, a hit, a failed fetch and a clean. *)
 Example C18_history_example :
